@@ -174,6 +174,19 @@ theorem size_truthful (isForm : Bool) (b : Bytes) (parts : List Appended) (n : N
               simp [dashBoundary, CRLF, hy']; omega
       · cases hs
 
+/-- **The size follows every later change of a part.** `size` and `write` are functions of the
+writer's *current* parts: after the header block of an already appended part is changed
+(`part.headers[name] = value`, `set_content_disposition`, …) — with any parts before and after
+it, nested writers included as parts — a declared size is again exactly the number of bytes
+written. (An implementation that remembers an earlier answer violates this; the harness drives
+writer histories with size queries in between and compares every answer with `sizeOf`.) -/
+theorem size_truthful_after_header_change (isForm : Bool) (b : Bytes) (pre post : List Appended)
+    (a : Appended) (name value : Bytes) (n : Nat) (w : Bytes)
+    (hs : sizeOf b (pre ++ { a with headers := setHeader a.headers name value } :: post) = some n)
+    (hw : writeParts isForm b (pre ++ { a with headers := setHeader a.headers name value } :: post) = .ok w) :
+    w.length = n :=
+  size_truthful isForm b _ n w hs hw
+
 /-- a size is declared exactly when no part is compressed or transfer-encoded -/
 theorem size_declared_iff_plain (b : Bytes) (parts : List Appended)
     (hh : ∀ a ∈ parts, (binaryHeaders a.headers).isSome = true) :
